@@ -97,6 +97,8 @@ def gen_cases(tier, rng):
             alpha = [0, 1]
         elif vdt in ("i8", "u8"):
             alpha = [1, 2, 3, 7, 100]
+        elif vdt == "u64" and rng.random() < 0.25:
+            alpha = [2 ** 63 + 5, 2 ** 64 - 2, 7, 2 ** 63]              # beyond the signed range
         elif vdt in ("i64", "u64") and rng.random() < 0.5:
             alpha = [2 ** 61 + 1, 2 ** 60 + 3, 5, 2 ** 53 + 1]          # exact only in integer arithmetic
         elif vdt in TEMPORAL:
